@@ -52,6 +52,19 @@ PROJ = {
 }
 
 
+# Besides the op kinds, the states a property speaks about: a compared line must have been issued in one of
+# these states (the state after the previous line of the case). Properties about the whole flow have no entry.
+FLOW_STATES = {"prepare", "sendRequest", "await100", "sendBody", "recvResponse", "recvBody", "redirect", "cleanup"}
+SEND_HEAD = {"prepare", "sendRequest"}
+PROJ_STATES = {
+    "C02": SEND_HEAD, "C16": SEND_HEAD | {"redirect"}, "C17": SEND_HEAD,
+    "C03": {"sendBody"}, "C04": {"sendBody"}, "C18": {"sendBody"}, "C19": {"sendBody"},
+    "C05": {"recvResponse"}, "C06": {"recvResponse", "recvBody"},
+    "C07": {"recvBody"}, "C08": {"recvBody", "recvResponse", "redirect", "cleanup"},
+    "C13": SEND_HEAD | {"redirect"}, "C14": SEND_HEAD | {"redirect", "recvResponse"}, "C15": {"redirect", "recvResponse", "recvBody", "prepare"},
+}
+
+
 def run(cmd, cwd=None, stdin=None, stdout=None, env=None, timeout=None):
     e = dict(os.environ)
     e["CARGO_NET_OFFLINE"] = "true"
@@ -237,21 +250,28 @@ def compare(pid, impl_lines, model_lines):
     """Line-by-line comparison under the property's projection. Returns (compared, mismatches, stats)
     where mismatches is a list of (case_index, line_no, impl, model)."""
     proj = PROJ.get(pid)
+    pstates = PROJ_STATES.get(pid)
     compared = 0; mism = []; ooc = 0
     sig = set(); distinct = set()
     ci = -1
+    prev_state = "none"
     n = min(len(impl_lines), len(model_lines))
     for i in range(n):
         a, b = impl_lines[i], model_lines[i]
         if a.startswith("case "):
-            ci += 1; continue
+            ci += 1; prev_state = "none"; continue
         if a.startswith("meta "):
             continue
+        issued_in = prev_state
+        if " @" in a:
+            prev_state = a.rsplit(" @", 1)[1]
         if b.endswith(" #out-of-class"):
             ooc += 1; continue
         kw = opkw(a)
         if proj is not None and kw not in proj:
             continue
+        if pstates is not None and issued_in in FLOW_STATES and issued_in not in pstates:
+            continue    # issued in a flow state this property does not speak about
         compared += 1
         res = a.split(" => ", 1)[1] if " => " in a else ""
         if "not-offered" not in res and "bad-op" not in res:
